@@ -15,21 +15,22 @@ Proof.
   destruct (step b o) as [b' ob]. destruct (sstep s o) as [s' os]. cbn [fst snd] in *.
   pose proof (R_len _ _ _ HR') as Hlen. destruct HR' as (HI' & Hl' & HR'').
   rewrite Ho, Hlen, Hl'. f_equal.
-  apply (IH (next_g g o) (next_k k o)); [split; [exact HI'|split; [exact Hl'|exact HR'']] | exact Hcap' | exact H2].
+  apply (IH (next_g g o) (next_k k s o)); [split; [exact HI'|split; [exact Hl'|exact HR'']] | exact Hcap' | exact H2].
 Qed.
 
 (* the states stay related along the way (so every lemma about related states holds in every reachable state) *)
 Definition exec (b : buf) (l : list op) : buf := fold_left (fun b o => fst (step b o)) l b.
 Definition sexec (s : spec) (l : list op) : spec := fold_left (fun s o => fst (sstep s o)) l s.
 Definition gexec (g : bool) (l : list op) : bool := fold_left next_g l g.
-Definition kexec (k : Z) (l : list op) : Z := fold_left next_k l k.
+Fixpoint kexec (k : Z) (s : spec) (l : list op) : Z :=
+  match l with [] => k | o :: r => kexec (next_k k s o) (fst (sstep s o)) r end.
 Theorem reachable_related l : forall g k b s, R g b s -> (zn (cap b) <= k)%Z -> ok_seq g k s l = true ->
-  R (gexec g l) (exec b l) (sexec s l) /\ (zn (cap (exec b l)) <= kexec k l)%Z.
+  R (gexec g l) (exec b l) (sexec s l) /\ (zn (cap (exec b l)) <= kexec k s l)%Z.
 Proof.
   induction l as [|o r IH]; intros g k b s HR Hcap Hok; [split; [exact HR|exact Hcap]|].
   cbn [ok_seq] in Hok. apply andb_prop in Hok. destruct Hok as [H1 H2].
   destruct (step_sim g k b s o HR Hcap H1) as (_ & HR' & Hcap').
-  unfold exec, sexec, gexec, kexec. cbn [fold_left]. apply IH; assumption.
+  unfold exec, sexec, gexec. cbn [fold_left kexec]. apply IH; assumption.
 Qed.
 Corollary reachable_inv l g k b s : R g b s -> (zn (cap b) <= k)%Z -> ok_seq g k s l = true -> Inv (exec b l).
 Proof. intros HR Hcap Hok. apply (reachable_related l g k b s HR Hcap Hok). Qed.
